@@ -71,12 +71,12 @@ func maxSends(fn *ssa.Function, pred func(ssa.Instruction) bool) int {
 
 func runC19(c *Ctx) {
 	p := c.Progs["mod"]
-	c.Rule("C19.I", "chain of custody of (backend ID, request ID) and of the stored bytes", 22)
+	c.Rule("C19.I", "chain of custody of (backend ID, request ID) and of the stored bytes", 23)
 	c.Rule("C19.K", "key agreement between write and read paths; ordered blob parts", 9)
 	c.Rule("C19.C", "completion flag", 3)
 	c.Rule("C19.S", "cache and datastore keys encode (backend ID, request ID) injectively, same roles on both sides; the caching store delegates with its own parameters, context included (= C17.S)", 5)
 	c17Sibling(c, p, "C19.S") // includes the key rules; the caching store hands its own parameters (context included) to the store it wraps
-	c.Rule("C19.R", "GET response cache: one injective key of (user, URL) for lookup and store", 5)
+	c.Rule("C19.R", "GET response cache: one injective key of (user, URL) for lookup and store", 6)
 	ruleAppResponseCacheKey(c, p, "C19.R")
 	c.Rule("C19.H", "no call hangs: channel capacities, WaitGroup pairing, bounded wait loops", 7)
 	const sp = ModPath + "/app/store"
@@ -325,6 +325,40 @@ func runC19(c *Ctx) {
 		}
 	}
 
+	// every path of postResponse that found the request either starts the write of the response or
+	// reports an error: an early "nothing to do" return (a duplicate-looking post, say) acknowledges a
+	// response that was never stored — the client then waits until its 504
+	if f := c.need(p, "C19.I", "app.postResponse"); f != nil {
+		starts := func(i ssa.Instruction) bool {
+			if _, isSend := i.(*ssa.Send); isSend {
+				return true
+			}
+			cc := CallOf(i)
+			if cc == nil {
+				return false
+			}
+			if cc.IsInvoke() && cc.Method.Name() == "WriteResponse" {
+				return true
+			}
+			if g, isGo := i.(*ssa.Go); isGo {
+				if mc, isMC := g.Call.Value.(*ssa.MakeClosure); isMC {
+					found := false
+					for _, h := range WithClosures(mc.Fn.(*ssa.Function)) {
+						EachInstrRaw(h, func(j ssa.Instruction) {
+							if c2 := CallOf(j); c2 != nil && c2.IsInvoke() && c2.Method.Name() == "WriteResponse" {
+								found = true
+							}
+						})
+					}
+					return found
+				}
+			}
+			return false
+		}
+		hit, path := (&Walk{Target: IsReturn, Avoid: starts, Ctx: f}).FromBlock(f.Blocks[0])
+		c.Check("C19.I", "respond:every-path-stores-or-reports", p, f.Pos(), hit == nil, "every return of postResponse passed the write of the response or an error report", "postResponse can return without storing the response and without reporting an error ("+PathString(p, path)+"): the agent's post is acknowledged, nothing is stored, and the client never receives the response posted under its ID")
+	}
+
 	// ---- C19.K
 	newKeyRoles := func(fnName, key string, kindWant func(ssa.Value) bool, nameWant string) {
 		f := c.need(p, "C19.K", fnName)
@@ -405,6 +439,53 @@ func runC19(c *Ctx) {
 				base, _, _ := FieldAddrOf(st.Addr)
 				if cv, ok := st.Val.(*ssa.Const); ok && cv.Value != nil && constant.BoolVal(cv.Value) && SameValue(base, reqArg) && Dominates(st, wreq) {
 					okC = isRead
+				}
+			}
+		}
+		if rr != nil && wreq != nil && !okC {
+			// … or a private copy of the read request, marked completed before the writer runs:
+			// completed := *request; completed.Completed = true; …WriteRequest(ctx, &completed)
+			reqArg := Args(CallOf(wreq))[2]
+			{
+				if al := resolveCell(reqArg); al != nil && NamedTypeRel(al.Type()) == "app/types.Request" {
+					before := func(st ssa.Instruction) bool {
+						if st.Parent() == wreq.Parent() {
+							return Dominates(st, wreq)
+						}
+						// stored in the enclosing function before the writing goroutine is created
+						for _, fn := range WithClosures(f) {
+							found := false
+							EachInstrRaw(fn, func(i ssa.Instruction) {
+								if mc, isMC := i.(*ssa.MakeClosure); isMC && mc.Fn == ssa.Value(wreq.Parent()) && st.Parent() == fn && Dominates(st, mc) {
+									found = true
+								}
+							})
+							if found {
+								return true
+							}
+						}
+						return false
+					}
+					copied, flagged := false, false
+					for _, fn := range WithClosures(f) {
+						EachInstrRaw(fn, func(i ssa.Instruction) {
+							st, isSt := i.(*ssa.Store)
+							if !isSt {
+								return
+							}
+							if st.Addr == ssa.Value(al) {
+								if ld, isLd := st.Val.(*ssa.UnOp); isLd && ld.Op == token.MUL && CallResult(ld.X, 0, storeIface+".ReadRequest") != nil && before(st) {
+									copied = true
+								}
+							}
+							if base, fld, ok := FieldAddrOf(st.Addr); ok && fld == "Completed" && base == ssa.Value(al) {
+								if cv, isC := st.Val.(*ssa.Const); isC && cv.Value != nil && constant.BoolVal(cv.Value) && before(st) {
+									flagged = true
+								}
+							}
+						})
+					}
+					okC = copied && flagged
 				}
 			}
 		}
